@@ -13,10 +13,10 @@ Lemma D_uuid pre u tail : pre <> [] -> nonl pre = true -> u <> [] -> forallb (cs
 Proof. intros. unf_ast_goal. dI'. Qed.
 
 Lemma D_hs_tail a : a <> [] -> forallb (cs_in cs_alnum) a = true -> D hs_tail ((s_hashstates ++ [SL]) ++ a ++ [] ++ []) [] [].
-Proof. intros. unf_ast_goal. dI'. cbn [D]. right. split; reflexivity. reflexivity. Qed.
+Proof. intros. unf_ast_goal. dI'. apply D_opt_none. reflexivity. Qed.
 Lemma D_hs_tail_off a o : a <> [] -> forallb (cs_in cs_alnum) a = true -> o <> [] -> forallb (cs_in cs_digit) o = true ->
   D hs_tail ((s_hashstates ++ [SL]) ++ a ++ ([SL] ++ o) ++ []) [] [].
-Proof. intros. unf_ast_goal. dI'. cbn [D]. left. dI'. reflexivity. Qed.
+Proof. intros. unf_ast_goal. dI'. apply D_opt_some. dI'. reflexivity. Qed.
 
 Lemma build_hashstates r u a :
   build (KUploadHashStates r u a) = repo_dir r ++ sls s_uploads ++ u ++ [SL] ++ ((s_hashstates ++ [SL]) ++ a ++ [] ++ []).
@@ -31,7 +31,7 @@ Proof.
   intros Hr Hu. by_unique.
   - destruct (uuid_ok_facts u Hu) as (? & ? & ? & ?).
     change (build (KUploadData r u)) with (repo_dir r ++ sls s_uploads ++ u ++ [SL] ++ (s_data ++ [])).
-    apply D_uuid; auto using repo_dir_nonnil, repo_dir_nonl. left. apply D_lit_eol.
+    apply D_uuid; auto using repo_dir_nonnil, repo_dir_nonl. apply D_alt_l. apply D_lit_eol.
   - uniq.
 Qed.
 Lemma uuid_startedat r u : repo_ok r = true -> uuid_ok u = true -> exec ast_get_upload_uuid (build (KUploadStartedAt r u)) = Some [u].
@@ -39,7 +39,7 @@ Proof.
   intros Hr Hu. by_unique.
   - destruct (uuid_ok_facts u Hu) as (? & ? & ? & ?).
     change (build (KUploadStartedAt r u)) with (repo_dir r ++ sls s_uploads ++ u ++ [SL] ++ (s_startedat ++ [])).
-    apply D_uuid; auto using repo_dir_nonnil, repo_dir_nonl. right. left. apply D_lit_eol.
+    apply D_uuid; auto using repo_dir_nonnil, repo_dir_nonl. right. apply D_alt_l. apply D_lit_eol.
   - uniq.
 Qed.
 Lemma uuid_hashstates r u a : repo_ok r = true -> uuid_ok u = true -> valid_algo a = true ->
@@ -47,7 +47,7 @@ Lemma uuid_hashstates r u a : repo_ok r = true -> uuid_ok u = true -> valid_algo
 Proof.
   intros Hr Hu Ha. by_unique.
   - destruct (uuid_ok_facts u Hu) as (? & ? & ? & ?). destruct (valid_algo_cls a Ha).
-    rewrite build_hashstates. apply D_uuid; auto using repo_dir_nonnil, repo_dir_nonl. right. right. apply D_hs_tail; auto.
+    rewrite build_hashstates. apply D_uuid; auto using repo_dir_nonnil, repo_dir_nonl. apply D_alt_r. apply D_alt_r. apply D_hs_tail; auto.
   - uniq.
 Qed.
 Lemma uuid_hashstate r u a o : repo_ok r = true -> uuid_ok u = true -> valid_algo a = true -> valid_offset o = true ->
@@ -55,7 +55,7 @@ Lemma uuid_hashstate r u a o : repo_ok r = true -> uuid_ok u = true -> valid_alg
 Proof.
   intros Hr Hu Ha Ho. by_unique.
   - destruct (uuid_ok_facts u Hu) as (? & ? & ? & ?). destruct (valid_algo_cls a Ha). destruct (valid_offset_cls o Ho).
-    rewrite build_hashstate. apply D_uuid; auto using repo_dir_nonnil, repo_dir_nonl. right. right. apply D_hs_tail_off; auto.
+    rewrite build_hashstate. apply D_uuid; auto using repo_dir_nonnil, repo_dir_nonl. apply D_alt_r. apply D_alt_r. apply D_hs_tail_off; auto.
   - uniq.
 Qed.
 
@@ -72,10 +72,10 @@ Proof.
 Qed.
 
 (* ---- matchUploadsPath ---- *)
-Definition mu_alt := Grp (Alt (Seq (Lit s_data) Eol) (Alt (Seq (Lit s_startedat) Eol) (Lit s_hashstates))).
+Definition mu_alt := Alt (Seq (Lit s_data) Eol) (Alt (Seq (Lit s_startedat) Eol) (Lit s_hashstates)).
 Lemma D_mu pre u tail rest c : pre <> [] -> nonl pre = true -> u <> [] -> forallb (cs_in cs_noslash) u = true ->
   D mu_alt tail rest c ->
-  D ast_match_uploads (pre ++ sls s_uploads ++ u ++ [SL] ++ tail) rest c.
+  D ast_match_uploads (pre ++ sls s_uploads ++ u ++ [SL] ++ tail) rest (c ++ [tail]).
 Proof. intros. unf_ast_goal. dI'. Qed.
 
 Lemma mu_data r u : repo_ok r = true -> uuid_ok u = true -> exec ast_match_uploads (build (KUploadData r u)) = Some [s_data].
@@ -83,7 +83,7 @@ Proof.
   intros Hr Hu. by_unique.
   - destruct (uuid_ok_facts u Hu) as (? & ? & ? & ?).
     change (build (KUploadData r u)) with (repo_dir r ++ sls s_uploads ++ u ++ [SL] ++ (s_data ++ [])).
-    apply D_mu; auto using repo_dir_nonnil, repo_dir_nonl. eapply D_grp; [left; apply D_lit_eol|reflexivity].
+    apply (D_mu _ _ _ _ []); auto using repo_dir_nonnil, repo_dir_nonl. apply D_alt_l; apply D_lit_eol.
   - uniq_scan.
 Qed.
 Lemma mu_startedat r u : repo_ok r = true -> uuid_ok u = true -> exec ast_match_uploads (build (KUploadStartedAt r u)) = Some [s_startedat].
@@ -91,16 +91,104 @@ Proof.
   intros Hr Hu. by_unique.
   - destruct (uuid_ok_facts u Hu) as (? & ? & ? & ?).
     change (build (KUploadStartedAt r u)) with (repo_dir r ++ sls s_uploads ++ u ++ [SL] ++ (s_startedat ++ [])).
-    apply D_mu; auto using repo_dir_nonnil, repo_dir_nonl. eapply D_grp; [right; left; apply D_lit_eol|reflexivity].
+    apply (D_mu _ _ _ _ []); auto using repo_dir_nonnil, repo_dir_nonl. apply D_alt_r; apply D_alt_l; apply D_lit_eol.
   - uniq_scan.
 Qed.
-Lemma mu_hashstates_any r u rest : repo_ok r = true -> uuid_ok u = true -> valid_algo (hd [] (segs rest)) = true \/ True ->
+Lemma mu_hashstates_any r u rest : repo_ok r = true -> uuid_ok u = true ->
   exec ast_match_uploads (repo_dir r ++ sls s_uploads ++ u ++ sls s_hashstates ++ rest) <> None.
 Proof.
-  intros Hr Hu _. destruct (uuid_ok_facts u Hu) as (? & ? & ? & ?).
+  intros Hr Hu. destruct (uuid_ok_facts u Hu) as (? & ? & ? & ?).
   replace (repo_dir r ++ sls s_uploads ++ u ++ sls s_hashstates ++ rest)
     with ((repo_dir r ++ sls s_uploads ++ u ++ [SL] ++ s_hashstates) ++ (SL :: rest)).
-  2:{ cbn [sls app]. rewrite <- !app_assoc. cbn [app]. reflexivity. }
-  eapply exec_complete. apply D_mu; auto using repo_dir_nonnil, repo_dir_nonl.
-  eapply D_grp; [right; right; apply D_lit|reflexivity].
+  2:{ unfold sls. repeat (progress (rewrite <- ?app_assoc; cbn [app])). reflexivity. }
+  eapply exec_complete. apply (D_mu _ _ _ _ []); auto using repo_dir_nonnil, repo_dir_nonl.
+  apply D_alt_r; apply D_alt_r; apply D_lit.
 Qed.
+
+Ltac by_unique_rest s1' s2' :=
+  lazymatch goal with |- exec ?r ?p = Some ?c0 =>
+    apply (exec_unique r p s1' s2' c0) end.
+Lemma split_hashstates r u rest :
+  repo_dir r ++ sls s_uploads ++ u ++ sls s_hashstates ++ rest
+  = (repo_dir r ++ sls s_uploads ++ u ++ [SL] ++ s_hashstates) ++ (SL :: rest).
+Proof. unfold sls. repeat (progress (rewrite <- ?app_assoc; cbn [app])). reflexivity. Qed.
+
+Lemma mu_hashstates r u a : repo_ok r = true -> uuid_ok u = true -> valid_algo a = true ->
+  exec ast_match_uploads (build (KUploadHashStates r u a)) = Some [s_hashstates].
+Proof.
+  intros Hr Hu Ha.
+  by_unique_rest (repo_dir r ++ sls s_uploads ++ u ++ [SL] ++ s_hashstates) (SL :: a).
+  - apply split_hashstates.
+  - destruct (uuid_ok_facts u Hu) as (? & ? & ? & ?).
+    apply (D_mu _ _ _ _ []); auto using repo_dir_nonnil, repo_dir_nonl. apply D_alt_r; apply D_alt_r; apply D_lit.
+  - uniq_scan.
+Qed.
+Lemma mu_hashstate r u a o : repo_ok r = true -> uuid_ok u = true -> valid_algo a = true -> valid_offset o = true ->
+  exec ast_match_uploads (build (KUploadHashState r u a o)) = Some [s_hashstates].
+Proof.
+  intros Hr Hu Ha Ho.
+  by_unique_rest (repo_dir r ++ sls s_uploads ++ u ++ [SL] ++ s_hashstates) (SL :: a ++ SL :: o).
+  - apply split_hashstates.
+  - destruct (uuid_ok_facts u Hu) as (? & ? & ? & ?).
+    apply (D_mu _ _ _ _ []); auto using repo_dir_nonnil, repo_dir_nonl. apply D_alt_r; apply D_alt_r; apply D_lit.
+  - uniq_scan.
+Qed.
+
+Lemma D_muh pre u tail : pre <> [] -> nonl pre = true -> u <> [] -> forallb (cs_in cs_noslash) u = true ->
+  D hs_tail tail [] [] ->
+  D ast_match_uploads_hashstates (pre ++ sls s_uploads ++ u ++ [SL] ++ tail) [] [].
+Proof. intros. unfold ast_match_uploads_hashstates, seqs, L, dots, noslash. dI'. Qed.
+Lemma muh_hashstates r u a : repo_ok r = true -> uuid_ok u = true -> valid_algo a = true ->
+  exec ast_match_uploads_hashstates (build (KUploadHashStates r u a)) <> None.
+Proof.
+  intros Hr Hu Ha. destruct (uuid_ok_facts u Hu) as (? & ? & ? & ?). destruct (valid_algo_cls a Ha).
+  rewrite build_hashstates. rewrite <- (app_nil_r (repo_dir r ++ _)). eapply exec_complete.
+  apply D_muh; auto using repo_dir_nonnil, repo_dir_nonl. apply D_hs_tail; auto.
+Qed.
+Lemma muh_hashstate r u a o : repo_ok r = true -> uuid_ok u = true -> valid_algo a = true -> valid_offset o = true ->
+  exec ast_match_uploads_hashstates (build (KUploadHashState r u a o)) <> None.
+Proof.
+  intros Hr Hu Ha Ho. destruct (uuid_ok_facts u Hu) as (? & ? & ? & ?). destruct (valid_algo_cls a Ha). destruct (valid_offset_cls o Ho).
+  rewrite build_hashstate. rewrite <- (app_nil_r (repo_dir r ++ _)). eapply exec_complete.
+  apply D_muh; auto using repo_dir_nonnil, repo_dir_nonl. apply D_hs_tail_off; auto.
+Qed.
+
+(* the subtype strings of the model are the constants of paths.go *)
+Lemma st_consts : st_data = s_data /\ st_startedat = s_startedat /\ st_hashstates = s_hashstates /\ st_link = s_link
+  /\ st_tags = s_tags /\ st_revisions = s_revisions
+  /\ pt_manifests = s_manifests /\ pt_uploads = s_uploads /\ pt_layers = s_layers /\ pt_blobs = s_blobs.
+Proof. repeat split; reflexivity. Qed.
+
+Lemma match_uploads_data r u : repo_ok r = true -> uuid_ok u = true -> match_uploads (build (KUploadData r u)) = Some st_data.
+Proof. intros. unfold match_uploads. rewrite mu_data by auto. reflexivity. Qed.
+Lemma match_uploads_startedat r u : repo_ok r = true -> uuid_ok u = true -> match_uploads (build (KUploadStartedAt r u)) = Some st_startedat.
+Proof. intros. unfold match_uploads. rewrite mu_startedat by auto. reflexivity. Qed.
+Lemma match_uploads_hashstates r u a : repo_ok r = true -> uuid_ok u = true -> valid_algo a = true ->
+  match_uploads (build (KUploadHashStates r u a)) = Some st_hashstates.
+Proof.
+  intros. unfold match_uploads. rewrite mu_hashstates by auto. cbn [first_cap]. change (str_eqb s_hashstates st_hashstates) with true. cbv iota.
+  pose proof (muh_hashstates r u a) as X. destruct (exec ast_match_uploads_hashstates _); [reflexivity|]. exfalso; apply X; auto.
+Qed.
+Lemma match_uploads_hashstate r u a o : repo_ok r = true -> uuid_ok u = true -> valid_algo a = true -> valid_offset o = true ->
+  match_uploads (build (KUploadHashState r u a o)) = Some st_hashstates.
+Proof.
+  intros. unfold match_uploads. rewrite mu_hashstate by auto. cbn [first_cap]. change (str_eqb s_hashstates st_hashstates) with true. cbv iota.
+  pose proof (muh_hashstate r u a o) as X. destruct (exec ast_match_uploads_hashstates _); [reflexivity|]. exfalso; apply X; auto.
+Qed.
+
+(* ---- matchManifestsPath rejects upload paths ---- *)
+Ltac none_scan := apply exec_none;
+  let t1 := fresh "t1" in let t2 := fresh "t2" in let c' := fresh "c'" in
+  let Hp := fresh "Hp" in let HD := fresh "HD" in
+  intros t1 t2 c' Hp HD; dD HD; subst; facts; to_segs Hp; cbn [app] in Hp;
+  (eapply kw_scan_root in Hp; [|reflexivity|assumption]); scan_suffix Hp; finish2.
+
+Lemma mm_upload_data r u : repo_ok r = true -> uuid_ok u = true -> exec ast_match_manifests (build (KUploadData r u)) = None.
+Proof. intros Hr Hu. none_scan. Qed.
+Lemma mm_upload_startedat r u : repo_ok r = true -> uuid_ok u = true -> exec ast_match_manifests (build (KUploadStartedAt r u)) = None.
+Proof. intros Hr Hu. none_scan. Qed.
+Lemma mm_upload_hashstates r u a : repo_ok r = true -> uuid_ok u = true -> valid_algo a = true -> exec ast_match_manifests (build (KUploadHashStates r u a)) = None.
+Proof. intros Hr Hu Ha. none_scan. Qed.
+Lemma mm_upload_hashstate r u a o : repo_ok r = true -> uuid_ok u = true -> valid_algo a = true -> valid_offset o = true ->
+  exec ast_match_manifests (build (KUploadHashState r u a o)) = None.
+Proof. intros Hr Hu Ha Ho. none_scan. Qed.
